@@ -301,6 +301,27 @@ func (r *Report) add(construct string, pos token.Pos, status, why string, nontri
 	r.Counts[r.rule]++
 }
 
+// only runs fn into a scratch report and keeps the obligations whose construct satisfies keep (plus unresolved anchors): a rule
+// shared with another property for the sake of ONE of its checks is registered there with just that check.
+func (r *Report) only(fn func(*Program, *Report), keep func(construct string) bool) {
+	tmp := newReport(r.Prop, r.p)
+	tmp.rule = r.rule
+	fn(r.p, tmp)
+	for _, o := range tmp.Obs {
+		if !keep(o.Construct) && !strings.HasPrefix(o.Construct, "anchor:") {
+			continue
+		}
+		key := r.rule + "|" + o.Construct
+		r.seen[key]++
+		if n := r.seen[key]; n > 1 {
+			key = fmt.Sprintf("%s#%d", key, n)
+		}
+		o.Key = key
+		r.Obs = append(r.Obs, o)
+		r.Counts[r.rule]++
+	}
+}
+
 // Check records one obligation; ok=true ⇒ discharged.
 func (r *Report) Check(ok bool, construct string, pos token.Pos, why string) bool {
 	st := "discharged"
